@@ -111,8 +111,9 @@ package godi
 //@   loop 1
 //@     invariant collected: forall c *scope :: seen[c] ==> occursScope(c, children)
 //@     invariant only_children: forall i int :: 0 <= i && i < len(children) ==> (children[i] in s.children) && children[i] != nil
-//@     invariant cancel_kept: ncalls("field:scope.cancel") == ite(s.cancel != nil, 1, 0)
+//@     invariant not_cancelled_yet: ncalls("field:scope.cancel") == 0
 //@   loop 2
+//@     invariant not_cancelled_yet: ncalls("field:scope.cancel") == 0
 //@     invariant kids_nonnil: forall i int :: 0 <= i && i < len(children) ==> children[i] != nil
 //@     invariant kids_called: ncalls("scope.Close") == idx && (forall i int :: 0 <= i && i < idx ==> callarg("scope.Close", i, 0) == children[i])
 //@     invariant errs_none: (forall i int :: 0 <= i && i < idx ==> callret("scope.Close", i, 0) == nil) ==> len(errs) == 0
